@@ -4,7 +4,7 @@ package gensign
 //vsym:entry H03_run_delivery
 //vsym:replay same-harness
 //vsym:expect-cover C03.run.success C03.run.failed-during-signing C03.run.several-requests-per-key
-//vsym:bound H03_run_delivery: gensign.Run over a handler that generates 1..2 agent keys with 1..3 (thorough 1..4) signing requests each (three keys of four requests did not finish within 20 minutes and are outside the claim); the signer answers every request with 0..2 certificates (with parallel comments) or fails at a symbolic request index (or never; index, certificate counts and the agent's refusal are solver variables); the agent key records every AddCertsToAgent call, which may itself fail for the first key
+//vsym:bound H03_run_delivery: gensign.Run over a handler that generates 1..2 agent keys with 1..3 (thorough 1..4) signing requests each (three keys of four requests did not finish within 20 minutes and are outside the claim); the signer answers every request with 0..2 certificates (with parallel comments) or fails at a symbolic request index (or never; index, certificate counts and the agent's refusal are solver variables); the agent key records every AddCertsToAgent call, which may itself fail for the first key; the request context is live, or found done from the moment the CA fails (symbolic)
 //vsym:assume AddCertsToAgent is the only step of a run that removes the earlier generation (shown for the shipped agent key by H03_provision); the handler's Authenticate is C01's subject
 
 import (
@@ -44,7 +44,22 @@ func (k *m03rKey) AddCertsToAgent(certs []ssh.PublicKey, comments []string) erro
 	return nil
 }
 
+// a request context that is found done (cancelled, deadline passed) once the CA has failed
+type m03rCtx struct {
+	context.Context
+	done *bool
+}
+
+func (c m03rCtx) Err() error {
+	if *c.done {
+		return context.Canceled
+	}
+	return nil
+}
+
 type m03rSigner struct {
+	ctxDone       *bool
+	doneAtFailure bool
 	seen     []*proto.SSHCertificateSigningRequest
 	failAt   int // index of the request that fails, -1: never
 	perReq   []int
@@ -56,6 +71,9 @@ func (s *m03rSigner) Sign(ctx context.Context, r *proto.SSHCertificateSigningReq
 	i := len(s.seen)
 	s.seen = append(s.seen, r)
 	if i == s.failAt {
+		if s.doneAtFailure && s.ctxDone != nil {
+			*s.ctxDone = true
+		}
 		s.returned = append(s.returned, nil)
 		return nil, nil, errors.New("model: CA failed")
 	}
@@ -111,7 +129,10 @@ func H03_run_delivery() {
 	vAssume(vAnd(sg.failAt >= -1, sg.failAt < total))
 	keys[0].failAdd = vNondetBool("agent-refuses-first-key")
 
-	err := Run(context.Background(), &csr.ReqParam{TransID: "t"}, []Handler{h}, sg)
+	// the CA failure may coincide with the end of the request context (deadline, cancellation)
+	ctxDone := false
+	sg.ctxDone, sg.doneAtFailure = &ctxDone, vNondetBool("context-done-when-the-ca-fails")
+	err := Run(m03rCtx{Context: context.Background(), done: &ctxDone}, &csr.ReqParam{TransID: "t"}, []Handler{h}, sg)
 
 	// requests reach the signer in order, each once, up to the first failure
 	pos := 0
@@ -165,7 +186,7 @@ func H03_run_delivery() {
 	vAssert(len(sg.seen) == pos, "C03.nothing-signed-after-a-failure")
 	failed := sg.failAt >= 0 || keys[0].failAdd
 	if failed {
-		vAssert(err != nil, "C03.failed-run-is-an-error")
+		vAssert(err != nil && (IsErrorOfType(err, SignerSignErr) || IsErrorOfType(err, AgentOpCertErr)), "C03.failed-run-is-an-error")
 		if sg.failAt >= 0 && !(keys[0].failAdd && sg.failAt >= len(keys[0].reqs)) {
 			vAssert(IsErrorOfType(err, SignerSignErr), "C03.failed-run-is-an-error")
 			vReach("C03.run.failed-during-signing")
